@@ -107,6 +107,30 @@ def Res.map {β γ : Type} (f : β → γ) : Res β → Res γ
   | .panic => .panic
   | .pending r => .pending r
 
+/-- Outcome when the kernel may also *fail* a request: `plain` = the outcomes
+above; `failed q e` = request `q` was answered with `-e` and the future
+returned `Err(e)` (`Poll::Ready(Err(err)) => Poll::Ready(Err(err))`,
+src/io/mod.rs:484,541,587,671; src/net.rs:1303,1356,1427,1502). `EINTR` and
+`ECANCELED` never get here: the operation re-issues itself (C09). -/
+inductive ResE (β : Type) where
+  | plain (r : Res β)
+  | failed (q : Req) (e : Nat)
+  deriving Repr, DecidableEq
+
+def ResE.map {β γ : Type} (f : β → γ) : ResE β → ResE γ
+  | .plain r => .plain (r.map f)
+  | .failed q e => .failed q e
+
+/-- The kernel answers the script `ks`, then fails the request that is
+pending after it (if there is one) with errno `e`. Every future stops at its
+first failed request, so this describes all runs with one kernel error. -/
+def failWith {β : Type} (x : List Exch × Res β) : Option Nat → List Exch × ResE β
+  | none => (x.1, .plain x.2)
+  | some e =>
+    match x.2 with
+    | .pending q => (x.1, .failed q e)
+    | r => (x.1, .plain r)
+
 /-- `this.offset += n as u64` guarded by `this.offset != NO_OFFSET`
 (src/io/mod.rs:470-472, 518-520, 571-573, 638-640); `none` = the addition
 overflows `u64` (panic with overflow checks). Socket futures have no offset. -/
@@ -428,6 +452,28 @@ def showRes {β : Type} (okText : β → String) : Res β → List String
   | .panic => ["result panic"]
   | .pending r => [showReq r, "result pending"]
 
+/-- The error the caller sees for `-e`: `fallback` (src/io_uring/op.rs:992-1000)
+turns `EINVAL` into `ErrorKind::Unsupported`, every other error is passed on. -/
+def showErrno (e : Nat) : String := if e = 22 then "Unsupported" else s!"os{e}"
+
+def showResE {β : Type} (okText : β → String) : ResE β → List String
+  | .plain r => showRes okText r
+  | .failed q e => [showReq q, s!"res -{e}", s!"result err={showErrno e}"]
+
+/-- `err` key: absent or `-` = no kernel error; `<errno>` or `<errno>+`
+(the `+` only tells the harness how a zero-copy error is delivered).
+`EINTR` (4) and `ECANCELED` (125) are rejected: the operation retries them. -/
+def parseErr (toks : List String) : Option (Option Nat) :=
+  match findKv "err" toks with
+  | none => some none
+  | some v =>
+    if v == "-" then some none else
+    let digits := if v.endsWith "+" then (v.dropEnd 1).toString else v
+    if digits.isEmpty ∨ ¬ digits.toList.all Char.isDigit then none else
+    match digits.toNat? with
+    | some e => if e = 0 ∨ e > 4095 ∨ e = 4 ∨ e = 125 then none else some (some e)
+    | none => none
+
 /-- Largest buffer the harness allocates; larger ones are rejected by both sides. -/
 def MAX_LEN : Nat := 1048576
 
@@ -501,6 +547,7 @@ def stepW (toks : List String) : Option (List String) := do
   let zc ← (findKv "zc" toks).bind parseBool
   let ext ← (findKv "ext" toks).bind parseBool
   let ks ← (findKv "ks" toks).bind (parseList parseU64)
+  let err ← parseErr toks
   let shape ← findKv "shape" toks
   let single := fut == "write_all" || fut == "send_all"
   let okText := fun (_ : Unit) => if ext then " extract=same" else ""
@@ -510,24 +557,24 @@ def stepW (toks : List String) : Option (List String) := do
     match bufs, outer with
     | [b], none =>
       if flags ≠ 0 ∨ zc then none else
-      let r := writeAll b off ks
-      some (showExchs r.1 ++ showRes okText (r.2.map fun _ => ()))
+      let r := failWith (writeAll b off ks) err
+      some (showExchs r.1 ++ showResE okText (r.2.map fun _ => ()))
     | _, _ => none
   else if fut == "send_all" then
     match bufs, outer with
     | [b], none =>
       if off ≠ NO_OFFSET then none else
-      let r := sendAll b flags zc ks
-      some (showExchs r.1 ++ showRes okText (r.2.map fun _ => ()))
+      let r := failWith (sendAll b flags zc ks) err
+      some (showExchs r.1 ++ showResE okText (r.2.map fun _ => ()))
     | _, _ => none
   else if fut == "write_all_vectored" then
     if bufs.isEmpty ∨ bufs.length > 8 ∨ flags ≠ 0 ∨ zc then none else
-    let r := writeAllV ⟨bufs, outer⟩ off ks
-    some (showExchs r.1 ++ showRes okText (r.2.map fun _ => ()))
+    let r := failWith (writeAllV ⟨bufs, outer⟩ off ks) err
+    some (showExchs r.1 ++ showResE okText (r.2.map fun _ => ()))
   else if fut == "send_all_vectored" then
     if bufs.isEmpty ∨ bufs.length > 8 ∨ off ≠ NO_OFFSET then none else
-    let r := sendAllV ⟨bufs, outer⟩ flags zc ks
-    some (showExchs r.1 ++ showRes okText (r.2.map fun _ => ()))
+    let r := failWith (sendAllV ⟨bufs, outer⟩ flags zc ks) err
+    some (showExchs r.1 ++ showResE okText (r.2.map fun _ => ()))
   else none
 
 def stepR (toks : List String) : Option (List String) := do
@@ -539,6 +586,7 @@ def stepR (toks : List String) : Option (List String) := do
   let flags ← (findKv "flags" toks).bind parseU64
   let _ ← (findKv "zsel" toks).bind parseBool
   let ks ← (findKv "ks" toks).bind (parseList parseU64)
+  let err ← parseErr toks
   let shape ← findKv "shape" toks
   let isSingle := fut == "read_n" || fut == "recv_n"
   let off := off.getD NO_OFFSET
@@ -549,15 +597,15 @@ def stepR (toks : List String) : Option (List String) := do
     match bufs, outer with
     | [b], none =>
       if flags ≠ 0 then none else
-      let r := readN b n off ks
-      some (showExchs r.1 ++ showRes single r.2)
+      let r := failWith (readN b n off ks) err
+      some (showExchs r.1 ++ showResE single r.2)
     | _, _ => none
   else if fut == "recv_n" then
     match bufs, outer with
     | [b], none =>
       if off ≠ NO_OFFSET then none else
-      let r := recvN b n flags ks
-      some (showExchs r.1 ++ showRes single r.2)
+      let r := failWith (recvN b n flags ks) err
+      some (showExchs r.1 ++ showResE single r.2)
     | _, _ => none
   else if fut == "read_n_vectored" ∨ fut == "recv_n_vectored" then
     if bufs.isEmpty ∨ bufs.length > 8 ∨ bufs.any RBuf.isPoolish then none else
@@ -566,12 +614,12 @@ def stepR (toks : List String) : Option (List String) := do
       | some l => .lim (.arr bufs) l
     if fut == "read_n_vectored" then
       if flags ≠ 0 then none else
-      let r := readNV b n off ks
-      some (showExchs r.1 ++ showRes multi r.2)
+      let r := failWith (readNV b n off ks) err
+      some (showExchs r.1 ++ showResE multi r.2)
     else
       if off ≠ NO_OFFSET then none else
-      let r := recvNV b n flags ks
-      some (showExchs r.1 ++ showRes multi r.2)
+      let r := failWith (recvNV b n flags ks) err
+      some (showExchs r.1 ++ showResE multi r.2)
   else none
 
 /-- One op: `composite w …` (a writing future) or `composite r …` (a reading
